@@ -166,6 +166,38 @@ def declarative(codes, hb, chain, skip, kbits, kunsure, n):
                     ladder = True
         if ladder and codes[r] == "B":
             return "residue %d is part of a ladder of two consecutive bridges but has code B" % r
+    # bulge-linked ladders (published rule: at most one extra residue on one strand and at most four on the other): applied only to clean
+    # situations - b1 ends its run of consecutive bridges, b2 starts its run, no other bridge partner inside either gap
+    blist = sorted({(min(r, q), max(r, q), bt) for r, ps in partners.items() for (q, bt) in ps})
+    bset = set(blist)
+    allp = set(partners)
+    for (i1, j1, T) in blist:
+        nxt = (i1 + 1, j1 + 1, T) if T == "P" else (i1 + 1, j1 - 1, T)
+        if nxt in bset:
+            continue
+        for (i2, j2, T2) in blist:
+            if T2 != T or i2 <= i1:
+                continue
+            prv = (i2 - 1, j2 - 1, T) if T == "P" else (i2 - 1, j2 + 1, T)
+            if prv in bset:
+                continue
+            gi = i2 - i1
+            gj = (j2 - j1) if T == "P" else (j1 - j2)
+            if gi < 1 or gj < 1 or gi >= 6 or not ((gj < 6 and gi < 3) or gj < 3):
+                continue
+            jl, jh = min(j1, j2), max(j1, j2)
+            if i2 >= jl:
+                continue                      # the two strands would overlap
+            if chain[i1] != chain[i2] or chain[jl] != chain[jh]:
+                continue
+            inner = set(range(i1 + 1, i2)) | set(range(jl + 1, jh))
+            if inner & allp or any(skip[x] for x in inner):
+                continue
+            # every residue of both strands between the two bridges belongs to the sheet
+            for x in sorted(inner | {i1, i2, jl, jh}):
+                if codes[x] not in ("E", "H", "I"):
+                    return "residue %d lies between the %s bridges %d-%d and %d-%d, which are linked by a bulge (gaps %d and %d), but has code %r" % (
+                        x, "parallel" if T == "P" else "antiparallel", i1, j1, i2, j2, gi, gj, codes[x])
     pk = sorted(partners)
     for r in range(n):
         if skip[r]:
